@@ -195,7 +195,7 @@ func MannWhitneyUTest(x1, x2 []float64, alt LocationHypothesis) (*MannWhitneyUTe
 			p = dist.CDF(U1)
 
 		case LocationGreater:
-			p = 1 - dist.CDF(U1-1)
+			p = 1 - dist.CDF(U1-0.5)
 		}
 	} else {
 		// Use normal approximation (with tie and continuity
